@@ -401,9 +401,9 @@ def candidate_ints(full=True):
     vals = {0, 1, -1, 2, -2, 3, -3, 5, 6, 7, 10, 12, 20, 24, 100, -100}
     ks = range(1, 66) if full else list(range(1, 34)) + [40, 48, 56, 63, 64, 65]
     for k in ks:
-        for d in (-1, 0, 1):
-            vals.add((1 << k) + d)
-            vals.add(-(1 << k) + d)
+        for d in (-1, 0, 1) if full or k <= 12 else (-1, 0):
+            vals.add((1 << k) + d)  # 2^k - 1 | 2^k : last value of a k-bit unsigned field, first beyond
+            vals.add(-(1 << k) - d - (0 if full or k <= 12 else 1))  # -2^k | -2^k - 1
     for k in range(2, 33 if full else 22):  # aligned values just inside a power of two
         for a in (2, 4, 8):
             vals.add((1 << k) - a)
